@@ -735,7 +735,59 @@ class TokenizerAnalysis:
                     continue
                 nleaves += 1
                 s.leaf_obligations(lf, full, key, obs, alarms, c04)
+        s.prefix_consistency(obs, alarms)
         return obs, alarms, nleaves
+
+    def prefix_consistency(s, obs, alarms):
+        """C08: a token flushed at end of stream from abstract state sigma is *confirmed*: on any further frame the
+        code either delivers a token with the same start, or keeps the buffer (same first frame) in a state from
+        which the end-of-stream flush would again deliver.  Stated with the code's own end-of-stream leaves:
+        D(sigma) = some delivering eos leaf applies; the eos leaves of a key partition its states, so D(sigma')
+        holds iff no NON-delivering eos leaf of the successor key is jointly feasible."""
+        pre_of = {}
+        for key in s.inv:
+            pre_of[key] = [s.ATOMS[a] for a in s.tight(s.inv[key])]
+        rename_n = [0]
+        for key in s.inv:
+            pre = pre_of[key]
+            if not feasible(s.params + pre):
+                continue
+            lvs = [lf for lf in s.leaves(key, s.taint[key]) if feasible(lf.cons + pre)]
+            eosD = [lf for lf in lvs if lf.inp == 'eos' and any(e[0] == 'DELIVER' for e in lf.events)]
+            if not eosD:
+                continue
+            steps = [lf for lf in lvs if lf.inp != 'eos' and lf.exit is None]
+            for e in eosD:
+                te = [x for x in e.events if x[0] == 'DELIVER'][0][1]
+                for lf in steps:
+                    joint = lf.cons + e.cons + pre
+                    if not feasible(joint):
+                        continue
+                    dels = [x for x in lf.events if x[0] == 'DELIVER']
+                    where = dels[0][1]['where'] if dels else ('%s:%d' % (s.relname, lf.conds[-1][0]) if lf.conds else '%s:%d' % (s.relname, s.loop.lineno))
+                    conds = lf.conds
+                    if dels:
+                        s._ob(obs, alarms, ['C08'], 'prefix consistency: a token that end of stream would flush is later delivered with the same start', joint,
+                              eq(dels[0][1]['s'], te['s']), key, lf.inp, conds, where, lf.imprecise or e.imprecise)
+                        continue
+                    # buffer kept: same first frame, and the flush would still deliver in the successor state
+                    s._ob(obs, alarms, ['C08'], 'prefix consistency: a token that end of stream would flush is not abandoned by a later frame (buffer keeps its first frame)', joint,
+                          [ge(lf.env['len'], C(1)), eq(lf.env['P0'], te['s'])], key, lf.inp, conds, where, lf.imprecise or e.imprecise)
+                    k2 = lf.key2
+                    if k2 not in s.inv:
+                        continue
+                    pre2 = pre_of[k2]
+                    for n in s.leaves(k2, s.taint[k2]):
+                        if n.inp != 'eos' or any(x[0] == 'DELIVER' for x in n.events):
+                            continue
+                        ncons = [c for c in n.cons if c not in s.params]
+                        sub = [(subst(c[0], lf.env), c[1]) for c in ncons + pre2]
+                        if feasible(joint + sub):
+                            s._ob(obs, alarms, ['C08'], 'prefix consistency: after a further frame the end-of-stream flush still delivers the open token (it is confirmed)', joint + sub,
+                                  False, key, lf.inp, conds + [(c[0], 'then at end of stream: ' + c[1], c[2]) for c in n.conds[-3:]], where, lf.imprecise or e.imprecise or n.imprecise)
+                        else:
+                            obs.append(dict(props=['C08'], rule='prefix consistency: after a further frame the end-of-stream flush still delivers the open token (it is confirmed)', ok=True,
+                                            key=s.show_key(key), input=lf.inp, where=where))
 
     def _ob(s, obs, alarms, props, rule, cons, goal, key, inp, conds, where, imprecise, extra=()):
         """goal: a constraint, or a list of constraints (conjunction), or a bool"""
